@@ -158,6 +158,57 @@ def fold(n, env=None):
     return None
 
 
+# local pointer aliases of a parameter, substituted while printing (set by pointer_aliases())
+RENAME = {}
+
+
+def pointer_aliases(fn):
+    """locals that are nothing but another name of a pointer parameter: declared with an initialiser that is (a cast of) a
+    parameter or of another such alias, and never assigned, incremented or decremented afterwards -> {local: parameter}"""
+    params = [c["name"] for c in fn.get("inner", []) if c.get("kind") == "ParmVarDecl"]
+    written = set()
+
+    def f(n):
+        k = n.get("kind")
+        if k in ("BinaryOperator", "CompoundAssignOperator") and (k == "CompoundAssignOperator" or n.get("opcode") == "="):
+            l = strip(n["inner"][0])
+            if l.get("kind") == "DeclRefExpr":
+                written.add(l["referencedDecl"]["name"])
+        if k == "UnaryOperator" and n.get("opcode") in ("++", "--"):
+            l = strip(n["inner"][0])
+            if l.get("kind") == "DeclRefExpr":
+                written.add(l["referencedDecl"]["name"])
+        if k == "UnaryOperator" and n.get("opcode") == "&":
+            l = strip(n["inner"][0])
+            if l.get("kind") == "DeclRefExpr":
+                written.add(l["referencedDecl"]["name"])    # address taken: may be written through it
+    walk(fn, f)
+    al = {}
+
+    def g(n):
+        if n.get("kind") == "VarDecl" and "*" in n.get("type", {}).get("qualType", "") and n["name"] not in written:
+            init = [c for c in n.get("inner", []) if c.get("kind") != "FullComment"]
+            if len(init) == 1:
+                r = strip(init[0])
+                if r.get("kind") == "DeclRefExpr":
+                    t = r["referencedDecl"]["name"]
+                    t = al.get(t, t)
+                    if t in params and t not in written:
+                        al[n["name"]] = t
+    walk(fn, g)
+    return al
+
+
+def if_parts(s):
+    """(condition, then, else-or-None) of an IfStmt with `if (!c) A else B` read as `if (c) B else A`"""
+    inner = s["inner"]
+    c, a, b = inner[0], inner[1], inner[2] if len(inner) > 2 else None
+    cs = strip(c)
+    if b is not None and cs.get("kind") == "UnaryOperator" and cs.get("opcode") == "!":
+        return cs["inner"][0], b, a
+    return c, a, b
+
+
 def canon(n, env=None):
     """compact S-expression of a statement / expression, casts and parentheses dropped, constants folded"""
     if not n:
@@ -170,7 +221,14 @@ def canon(n, env=None):
         return str(v)
     inner = [c for c in n.get("inner", []) if c.get("kind") not in ("FullComment",)]
     if k == "DeclRefExpr":
-        return n["referencedDecl"]["name"]
+        return RENAME.get(n["referencedDecl"]["name"], n["referencedDecl"]["name"])
+    if k == "UnaryOperator" and n.get("opcode") == "&" and strip(inner[0]).get("kind") == "ArraySubscriptExpr":
+        # &p[n]  ==  p + n
+        sub = strip(inner[0])["inner"]
+        return "(+ %s %s)" % (canon(sub[0], env), canon(sub[1], env))
+    if k == "CompoundAssignOperator" and n.get("opcode") == "+=":
+        # x += n  ==  x = x + n
+        return "(= %s (+ %s %s))" % (canon(inner[0], env), canon(inner[0], env), canon(inner[1], env))
     if k == "MemberExpr":
         return "(%s %s %s)" % ("->" if n.get("isArrow") else ".", canon(inner[0], env), n["name"])
     if k == "ArraySubscriptExpr":
@@ -490,38 +548,26 @@ def parse_alloc(lay, K):
     st = stmts(body_of(sp))
     szmgr = lay["IMB_MGR"]["size"]
     first_off = None
-    for s in st:
-        c = canon(s)
-        if c == "(if (== mem_ptr 0) {(call imb_set_errno mem_ptr 12); (return 0)})":
-            continue          # NULL argument: outside the model
-        if c in ("(decl ptr=mem_ptr)", "(decl ptr8=ptr)", "(decl mem_size=(call imb_get_mb_mgr_size))", "(decl i)"):
-            continue
-        m = re.match(r"^\(decl free_ptr=\(& \(\[\] ptr8 \(& \(\+ \(sizeof (struct IMB_MGR|IMB_MGR)\) (\d+)\) (-?\d+)\)\)\)\)$", c)
-        if m:
-            first_off = (szmgr + int(m.group(2))) & int(m.group(3))
-            continue
-        if c.startswith("(if reset_mgr "):
-            inner = s["inner"]
-            if canon(inner[1]) != "{(call memset mem_ptr 0 mem_size)}" or len(inner) != 3:
-                fail(s, "imb_set_pointers_mb_mgr: reset branch not understood: " + canon(inner[1])[:200])
-            el = stmts(inner[2])
-            if len(el) != 2 or canon(el[0]) != "(decl used_arch=(-> ptr used_arch))" or el[1].get("kind") != "SwitchStmt":
-                fail(s, "imb_set_pointers_mb_mgr: re-attach branch not understood: " + canon(inner[2])[:300])
-            sw = el[1]
-            if canon(sw["inner"][0]) != "used_arch":
-                fail(sw, "switch is not on used_arch")
-            cases = []
-            body = stmts(sw["inner"][1])
+    al = pointer_aliases(sp)
+    RENAME.clear()
+    RENAME.update(al)
+
+    def arms_of(node):
+        """[(enumerator, arch, k)] of `switch (used_arch) { case K: init_K_internal(mem_ptr, k); break; ... default: break; }`
+        or of the equivalent chain `if (used_arch == K) init..; else if ...` without a final else that does anything"""
+        cases = []
+        if node.get("kind") == "SwitchStmt":
+            if canon(node["inner"][0]) not in ("used_arch", "(-> mem_ptr used_arch)"):
+                fail(node, "switch is not on used_arch")
+            body = stmts(node["inner"][1])
             j = 0
             while j < len(body):
                 cs = body[j]
                 if cs.get("kind") == "CaseStmt":
-                    m2 = re.match(r"^\(case (\w+) \(call init_mb_mgr_(\w+)_internal ptr (\d+)\)\)$", canon(cs))
+                    m2 = re.match(r"^\(case (\w+) \(call init_mb_mgr_(\w+)_internal mem_ptr (\d+)\)\)$", canon(cs))
                     if not m2 or j + 1 >= len(body) or body[j + 1].get("kind") != "BreakStmt":
                         fail(cs, "imb_set_pointers_mb_mgr: case not understood: " + canon(cs)[:200])
-                    if m2.group(1) not in K:
-                        fail(cs, "unknown arch enumerator")
-                    cases.append((K[m2.group(1)], m2.group(2), int(m2.group(3))))
+                    cases.append((m2.group(1), m2.group(2), int(m2.group(3))))
                     j += 2
                 elif cs.get("kind") == "DefaultStmt":
                     if canon(cs) != "(default BreakStmt)":
@@ -529,32 +575,76 @@ def parse_alloc(lay, K):
                     j += 1
                 else:
                     fail(cs, "imb_set_pointers_mb_mgr: unexpected statement in switch")
+            return cases
+        cur = node
+        while cur is not None:
+            if cur.get("kind") != "IfStmt":
+                fail(cur, "imb_set_pointers_mb_mgr: re-attach dispatch is neither a switch nor an if-chain")
+            cnd, a, b = cur["inner"][0], cur["inner"][1], cur["inner"][2] if len(cur["inner"]) > 2 else None
+            mc = re.match(r"^\(== (?:used_arch|\(-> mem_ptr used_arch\)) (\w+)\)$", canon(cnd))
+            body = stmts(a) if a.get("kind") == "CompoundStmt" else [a]
+            m2 = re.match(r"^\(call init_mb_mgr_(\w+)_internal mem_ptr (\d+)\)$", canon(body[0])) if len(body) == 1 else None
+            if not mc or not m2:
+                fail(cur, "imb_set_pointers_mb_mgr: arm of the re-attach dispatch not understood: " + canon(cur)[:200])
+            cases.append((mc.group(1), m2.group(1), int(m2.group(2))))
+            cur = b
+        return cases
+
+    for s in st:
+        c = canon(s)
+        if c == "(if (== mem_ptr 0) {(call imb_set_errno mem_ptr 12); (return 0)})":
+            continue          # NULL argument: outside the model
+        if s.get("kind") == "DeclStmt" and all(d.get("kind") == "VarDecl" and d["name"] in al for d in s["inner"]):
+            continue          # another name for mem_ptr
+        if c in ("(decl mem_size=(call imb_get_mb_mgr_size))", "(decl i)"):
+            continue
+        m = re.match(r"^\(decl free_ptr=\(\+ mem_ptr \(& \(\+ \(sizeof (struct IMB_MGR|IMB_MGR)\) (\d+)\) (-?\d+)\)\)\)$", c)
+        if m:
+            first_off = (szmgr + int(m.group(2))) & int(m.group(3))
+            continue
+        if s.get("kind") == "IfStmt" and canon(if_parts(s)[0]) == "reset_mgr":
+            _, th, el = if_parts(s)
+            if el is None or canon(th) not in ("{(call memset mem_ptr 0 mem_size)}", "(call memset mem_ptr 0 mem_size)"):
+                fail(s, "imb_set_pointers_mb_mgr: reset branch not understood: " + canon(th)[:200])
+            el = stmts(el) if el.get("kind") == "CompoundStmt" else [el]
+            if len(el) == 2 and canon(el[0]) == "(decl used_arch=(-> mem_ptr used_arch))":
+                disp = el[1]
+            elif len(el) == 1:
+                disp = el[0]
+            else:
+                fail(s, "imb_set_pointers_mb_mgr: re-attach branch not understood: " + canon(s)[:300])
+            cases = []
+            for (en, arch, k) in arms_of(disp):
+                if en not in K:
+                    fail(disp, "unknown arch enumerator " + en)
+                cases.append((K[en], arch, k))
             steps.append(("if_reset", cases))
             continue
-        if c == "(call imb_set_errno ptr 0)":
+        if c == "(call imb_set_errno mem_ptr 0)":
             steps.append(("errno0",)); continue
-        if c == "(= (-> ptr flags) flags)":
+        if c == "(= (-> mem_ptr flags) flags)":
             steps.append(("flags",)); continue
-        if c == "(= (-> ptr features) (call cpu_feature_adjust flags (call cpu_feature_detect)))":
+        if c == "(= (-> mem_ptr features) (call cpu_feature_adjust flags (call cpu_feature_detect)))":
             steps.append(("features",)); continue
         if c.startswith("(for (= i 0) _ (< i "):
-            want = "{(call set_ooo_ptr ptr (. ([] ooo_mgr_table i) ooo_ptr_offset) free_ptr); (= free_ptr (& ([] free_ptr (. ([] ooo_mgr_table i) ooo_aligned_size))))}"
+            want = "{(call set_ooo_ptr mem_ptr (. ([] ooo_mgr_table i) ooo_ptr_offset) free_ptr); (= free_ptr (+ free_ptr (. ([] ooo_mgr_table i) ooo_aligned_size)))}"
             body = canon(s["inner"][4])
             if body != want or "(post++ i)" not in c:
                 fail(s, "imb_set_pointers_mb_mgr: pointer loop not understood: " + body[:300])
             steps.append(("ptrs",)); continue
-        if c == "(call set_ooo_mgr_road_block ptr)":
+        if c == "(call set_ooo_mgr_road_block mem_ptr)":
             steps.append(("roadblocks",)); continue
-        if c == "(return ptr)":
+        if c == "(return mem_ptr)":
             continue
         fail(s, "imb_set_pointers_mb_mgr: statement not understood: " + c[:300])
+    RENAME.clear()
     if first_off is None:
         raise T7Error("imb_set_pointers_mb_mgr: free_ptr initialisation not found")
     # helper functions used by the steps: fixed shapes
     expect = {
-        "set_ooo_ptr": "{(decl mgr_offset=(& ([] mgr offset))); (decl ptr=mgr_offset); (= (* ptr) new_ptr)}",
-        "get_ooo_ptr": "{(decl mgr_offset=(& ([] mgr offset))); (decl ptr=mgr_offset); (return (* ptr))}",
-        "set_road_block": "{(decl p_road_block=(& ([] ooo_ptr offset))); (= (* p_road_block) %d)}" % 0xDEADCAFEDEADCAFE,
+        "set_ooo_ptr": "{(decl mgr_offset=(+ mgr offset)); (decl ptr=mgr_offset); (= (* ptr) new_ptr)}",
+        "get_ooo_ptr": "{(decl mgr_offset=(+ mgr offset)); (decl ptr=mgr_offset); (return (* ptr))}",
+        "set_road_block": "{(decl p_road_block=(+ ooo_ptr offset)); (= (* p_road_block) %d)}" % 0xDEADCAFEDEADCAFE,
     }
     for fn, want in expect.items():
         got = canon(body_of(fns[fn])) if fn in fns else None
@@ -565,7 +655,7 @@ def parse_alloc(lay, K):
         raise T7Error("alloc.c: set_ooo_mgr_road_block() has an unexpected body: %s" % got[:300])
     got = canon(body_of(fns["imb_get_mb_mgr_size"])) if "imb_get_mb_mgr_size" in fns else ""
     m = re.search(r"\(return \(\+ \(\+ \(sizeof (?:struct )?IMB_MGR\) ooo_total_size\) (\d+)\)\)", got)
-    if not m or "(+= ooo_total_size (. ([] ooo_mgr_table i) ooo_aligned_size))" not in got:
+    if not m or "(= ooo_total_size (+ ooo_total_size (. ([] ooo_mgr_table i) ooo_aligned_size)))" not in got:
         raise T7Error("alloc.c: imb_get_mb_mgr_size() has an unexpected body: %s" % got[:300])
     slack = int(m.group(1))
     return rows, steps, first_off, slack
